@@ -58,14 +58,14 @@ PROPS = {
     ),
     "C06": dict(
         title="Zoned arithmetic is DST-aware: calendar units on wall clock, time units exact",
-        verus=["zoned", "tsarith"],
+        verus=["zoned", "tsarith", "span"],
         kani_quick=[], kani_thorough=[],
         design_ref="DESIGN.md section 4, C06",
     ),
     "C13": dict(
         title="Every Zoned value is internally consistent with its time zone",
-        verus=["zoned", "ambig", "zonedround"],
-        kani_quick=[], kani_thorough=[],
+        verus=["zoned", "ambig", "zonedround", "posix", "tzif", "tzdispatch"],
+        kani_quick=["c03_posix_wrappers"], kani_thorough=[],
         design_ref="DESIGN.md section 4, C13",
     ),
     "C18": dict(
@@ -116,9 +116,9 @@ PROPS = {
     "C11": dict(
         title="Span balancing and rounding are exact relative to a reference",
         verus=["spanround", "span"],
-        kani_quick=["c11_round_float", "c11_round_float_native"], kani_thorough=["c10_model"],
+        kani_quick=["c11_round_float", "c11_round_float_native", "c11_relative_calendar"], kani_thorough=["c10_model"],
         design_ref="DESIGN.md section 4, C11",
-        level_text="Uniform-unit part, on the real span.rs code for every span, unit, increment and mode: Span::to_invariant_nanoseconds / from_invariant_nanoseconds (balancing conserves the exact nanosecond count, no unit above the largest, one sign, Ok iff the top unit is within its Span limit), round_span_invariant (no reference: result = balanced form of THE mode-prescribed multiple, calendar units refused via requires_relative_date_err), Nudge::relative_invariant (civil/zoned reference, smallest <= week: conservation, rounded end instant moves by exactly rounded - original) and Nudge::relative_zoned_time (zoned reference, sub-day smallest: day added in the span's direction exactly when rounding reaches the day's real end, end instant consistent with the span). Calendar-unit rounding goes through f64: RoundMode::round_float is decided by Kani (IEEE-754 bit-precise, full stated domain) for the five modes without a floating-point `%` and by a BOUNDED native enumeration against the exact-rational round_ok for all nine (Kani 0.68 mis-models f64 `%`). NOT decided: the rest of Nudge::relative_calendar and bubble (loops over calendar units), total() (floating point), compare(), SpanRound::round dispatch.",
+        level_text="Uniform-unit part, on the real span.rs code for every span, unit, increment and mode: Span::to_invariant_nanoseconds / from_invariant_nanoseconds (balancing conserves the exact nanosecond count, no unit above the largest, one sign, Ok iff the top unit is within its Span limit), round_span_invariant (no reference: result = balanced form of THE mode-prescribed multiple, calendar units refused via requires_relative_date_err), Nudge::relative_invariant (civil/zoned reference, smallest <= week: conservation, rounded end instant moves by exactly rounded - original) and Nudge::relative_zoned_time (zoned reference, sub-day smallest: day added in the span's direction exactly when rounding reaches the day's real end, end instant consistent with the span). Calendar-unit rounding goes through f64: RoundMode::round_float is decided by Kani (IEEE-754 bit-precise, full stated domain) for the five modes without a floating-point `%` and by a BOUNDED native enumeration against the exact-rational round_ok for all nine (Kani 0.68 mis-models f64 `%`). Nudge::relative_calendar: the window the progress is interpolated in (start multiple toward zero, one signed increment long) is pinned by a Kani probe harness; NOT decided: its f64 interpolation end to end and bubble (loops over calendar units), total() (floating point), compare(), SpanRound::round dispatch.",
     ),
     "C16": dict(
         title="strftime/strptime and RFC 2822 agree with the calendar and invert each other",
